@@ -2,6 +2,7 @@ package symex
 
 import (
 	"math/big"
+	"strings"
 
 	"verifeng/smt"
 )
@@ -222,7 +223,7 @@ func init() {
 		if !m.Branch(smt.And(conds...)) {
 			return TupleVal{StrVal{}, m.newError("bech32: invalid data byte")}
 		}
-		return TupleVal{StrVal{Abs: &AbsStr{Ctor: "bech32:" + hrp, Args: bs}}, IfaceVal{}}
+		return TupleVal{StrVal{Abs: &AbsStr{Ctor: "bech32:" + hrp, Args: bs, Hrp: hrp}}, IfaceVal{}}
 	})
 	reg(pkg+".Decode", func(m *Machine, a []Value) Value {
 		s := a[0].(StrVal)
@@ -241,5 +242,27 @@ func init() {
 			return TupleVal{StrVal{}, SliceVal{}, m.newError("bech32: decode failed")}
 		}
 		return TupleVal{StrVal{S: hrp}, m.bytesSlice(m.constBytes(data)), IfaceVal{}}
+	})
+}
+
+func init() {
+	reg := func(name string, f intrinsic) { intrinsics[name] = f }
+	// strings.LastIndexByte: on abstract bech32 text the only '1' is the separator after the prefix
+	reg("strings.LastIndexByte", func(m *Machine, a []Value) Value {
+		s := a[0].(StrVal)
+		c := a[1].(*smt.Term)
+		if s.Abs != nil {
+			if strings.HasPrefix(s.Abs.Ctor, "bech32:") && c.IsConst() && c.BigVal().Uint64() == '1' && !strings.Contains(s.Abs.Hrp, "1") {
+				return m.mkInt(int64(len(s.Abs.Hrp)))
+			}
+			m.unsupported("LastIndexByte on an abstract %s string", s.Abs.Ctor)
+		}
+		bs := m.strBytes(s)
+		for i := len(bs) - 1; i >= 0; i-- {
+			if m.Branch(smt.Eq(bs[i], c)) {
+				return m.mkInt(int64(i))
+			}
+		}
+		return m.mkInt(-1)
 	})
 }
